@@ -86,6 +86,29 @@ pub fn run(ctx: &Ctx) -> Outcome {
     let mut rep = run_sharded(ctx, |wk, nw, rep| {
         let ls = LangSet::new();
         let mut rng = Rng::derive(ctx.seed, "C17", wk as u64);
+        // bounded exhaustive part: every text of 2..3 (thorough: 2..4) words over the small alphabet of each language, its
+        // single spaces replaced throughout by each other whitespace kind and by three multi-element runs
+        const KINDS: [&str; 12] = ["  ", "\t", "\n", "\r\n", "\u{a0}", "\u{2009}", "\u{2003}", "\u{3000}", "\u{2028}", "\n\n", " \t ", "\r\n\r\n"];
+        let (n_small, cut) = crate::streams::for_each_small_stream(&ls.lex, if ctx.quick() { 3 } else { 4 }, wk, nw, &|| ctx.elapsed() > ctx.budget_s * 0.4, &mut |code, toks| {
+            if toks.len() < 2 {
+                return;
+            }
+            let words: Vec<&str> = toks.iter().map(|t| t.text.as_str()).collect();
+            let s = words.join(" ");
+            for k in KINDS.iter() {
+                let w = words.join(k);
+                let (n_occ, fail) = check(&ls, code, &s, &w, 0);
+                rep.eval(hash_bytes(&[code.as_bytes(), s.as_bytes(), w.as_bytes()]), n_occ > 0);
+                rep.add("whitespace_runs_substituted", (words.len() - 1) as u64);
+                if let Some(msg) = fail {
+                    rep.violation(&format!("{}:{}", code, msg.split(':').next().unwrap_or("").chars().take(20).collect::<String>()), jobj! {"kind" => "ws", "lang" => code, "s" => s.as_str(), "w" => w.as_str(), "shift" => 0usize}, format!("[{}] {}", code, msg));
+                }
+            }
+        });
+        rep.add("exhaustive_small_alphabet_texts", n_small);
+        if cut {
+            rep.count("exhaustive_enumeration_cut_by_budget");
+        }
         for i in 0..(n_texts / nw as u64) {
             if i % 128 == 0 && ctx.over_budget() {
                 break;
@@ -109,7 +132,7 @@ pub fn run(ctx: &Ctx) -> Outcome {
     if !ctx.quick() {
         super::legs::fuzz_leg(ctx, &mut rep, 45);
     }
-    let rule = "cases = (text, text with every maximal whitespace run replaced by a random run of 1..3 elements over {space, double space, tab, LF, CRLF, NBSP, thin, em, ideographic, U+2028} and runs added at either end); compared: validation result, occurrences tuple for tuple (spans shifted by the added leading token) at thresholds 0,3,10, rewrite of the substituted text against the splice of its own tokens, and both rewrites modulo whitespace; non-trivial = at least one whitespace run substituted and one number recognised";
+    let rule = "cases = every text of 2..3 (thorough 2..4) words over a 16-word alphabet per language with its spaces replaced throughout by each of 12 whitespace kinds / runs (counter exhaustive_small_alphabet_texts); (text, text with every maximal whitespace run replaced by a random run of 1..3 elements over {space, double space, tab, LF, CRLF, NBSP, thin, em, ideographic, U+2028} and runs added at either end); compared: validation result, occurrences tuple for tuple (spans shifted by the added leading token) at thresholds 0,3,10, rewrite of the substituted text against the splice of its own tokens, and both rewrites modulo whitespace; non-trivial = at least one whitespace run substituted and one number recognised";
     finish(ctx, rep, rule, &["only char::is_whitespace characters are used (zero-width space is not whitespace)"], vec![])
 }
 
